@@ -53,6 +53,10 @@ Base15 == Mk4("a", I("1"), "m", Mk2("x", I("1"), "y", L(<<I("1"), I("2")>>)), "l
 SetM(t, k, v) == Put(t, "m", Put(At(t, "m"), k, v))
 Edits(t) ==
   { Put(t, "a", I("2")), Del(t, "a"), Put(t, "n", L(<<S("new")>>)), Put(t, "s", S("other")),
+    (* a key removed while more keys are added: the map grows although something has to be deleted *)
+    Put(Put(Del(t, "a"), "n1", I("1")), "n2", Single("deep", I("2"))),
+    Put(t, "m", Put(Put(Del(At(t, "m"), "x"), "p", I("1")), "q", L(<<I("2")>>))),
+    Put(Put(Del(t, "l"), "n1", I("1")), "n2", I("2")),
     SetM(t, "x", I("9")), Put(t, "m", Del(At(t, "m"), "x")), SetM(t, "z", Single("deep", True)),
     SetM(t, "y", L(<<I("1"), I("2"), I("3")>>)), SetM(t, "y", L(<<I("2"), I("1")>>)), SetM(t, "y", L(<<I("1")>>)),
     SetM(t, "y", L(<<I("1"), I("1"), I("2")>>)), SetM(t, "y", L(<<I("0"), I("1"), I("2")>>)), SetM(t, "y", EmptyList),
